@@ -315,7 +315,7 @@ theorem leaf_stepInner (x x' : AnyObj) (os : List AnyObj) (io : Bytes) (inner : 
     · left; rw [hinner, if_neg hk]; exact ⟨rfl, List.eq_nil_of_length_eq_zero (by omega)⟩
 
 /-- the link of a class that only carries RawPDU -/
-theorem leaf_link {x : AnyObj} {os : List AnyObj}
+theorem leaf_link {os : List AnyObj}
     (h : match nextA os with | .none => True | .raw _ => True | _ => False) :
     nextA os = .none ∨ ∃ p, nextA os = .raw p := by
   cases hnx : nextA os with
@@ -344,7 +344,7 @@ theorem esp_step (ps : List LayerInfo) (e : Esp) (os : List AnyObj) (hi : e.Inv)
   rw [hio] at hp
   have hiol : io.length = region.length - 8 := by rw [← hio]; simp
   refine ⟨out, _, _, hw, hol, parseOne_esp _ _ _ hp, rfl, ?_⟩
-  apply leaf_stepInner _ _ os io _ rfl (leaf_link (x := .ip (.esp e)) hlink) _ (fun _ => rfl) hnil hraw
+  apply leaf_stepInner _ _ os io _ rfl (leaf_link hlink) _ (fun _ => rfl) hnil hraw
   rw [hiol]
 
 end Tins.Wire.ChainAll
